@@ -24,7 +24,7 @@ from . import exprsem, relmodel
 from .relmodel import Tab
 from .symx import SymInt, Skip, zint
 
-UNARY = ("calc", "proj", "sel", "dedup", "sort", "slice", "mat", "xfer")
+UNARY = ("calc", "proj", "sel", "dedup", "sort", "slice", "mat", "xfer", "tag")
 
 
 @dataclasses.dataclass(frozen=True)
@@ -74,6 +74,7 @@ class Env:
         self.metadata = None
         self.sql_mode = False  # SQL determinacy rules in sem_seq (DESIGN 2.4)
         self.count_mode = False  # order of unordered tables is irrelevant (count-only VCs)
+        self.expr_memo = {}
         self.history = True  # build() first builds an equal-but-not-identical tree over decoy leaves (see _tree_history)
         self.in_history = False
         self.history_done = {}
@@ -157,7 +158,15 @@ def _opts_kw(env, opts):
 
 
 def lib_expr(env, e):
-    return exprsem.lib_of_ast(e, env.tags, env.val)
+    """The library object for an expression AST; one object per distinct AST and Env, so that a program which uses the same
+    predicate or expression twice hands the *same object* to both calls (as callers do)."""
+    try:
+        return env.expr_memo[e]
+    except KeyError:
+        obj = env.expr_memo[e] = exprsem.lib_of_ast(e, env.tags, env.val)
+        return obj
+    except TypeError:  # unhashable AST
+        return exprsem.lib_of_ast(e, env.tags, env.val)
 
 
 def expression_history(env, *nodes):
@@ -175,7 +184,23 @@ def expression_history(env, *nodes):
                 pass
 
 
-_OPS = ("leaf", "calc", "proj", "sel", "dedup", "sort", "slice", "chain", "join", "mat", "xfer")
+_OPS = ("leaf", "calc", "proj", "sel", "dedup", "sort", "slice", "chain", "join", "mat", "xfer", "tag")
+_USER_MARKER = []
+
+
+def user_marker_class():
+    """A do-nothing user-defined marker relation (MarkerRelation is a documented extension point)."""
+    if not _USER_MARKER:
+        from lsst.daf.relation import MarkerRelation
+
+        @dataclasses.dataclass(frozen=True)
+        class UserTag(MarkerRelation):
+            def __str__(self):
+                return f"tag({self.target})"
+
+        _USER_MARKER.append(UserTag)
+    return _USER_MARKER[0]
+
 HISTORY = not os.environ.get("VERIF_NO_HISTORY")
 CURRENT_DECOYS = {}  # id(decoy LeafRelation) -> object, of the Env that built last (read by pytree)
 
@@ -292,6 +317,8 @@ def _build(node, env, memo):
         r = build(node[1], env, memo).materialized(name=node[2] if len(node) > 2 else None)
     elif op == "xfer":
         r = build(node[1], env, memo).transferred_to(env.engines[node[2]])
+    elif op == "tag":
+        r = user_marker_class()(target=build(node[1], env, memo))
     else:
         raise TypeError(f"bad program node {node!r}")
     memo[key] = r
@@ -322,7 +349,7 @@ def _sem_seq(node, env, prefer):
     sqlm = getattr(env, "sql_mode", False)
     if op == "leaf":
         return env.tables[node[1]]
-    if op in ("mat", "xfer"):
+    if op in ("mat", "xfer", "tag"):
         return _sem_seq(node[1], env, prefer)
     if op == "chain":
         a, b = _sem_seq(node[1], env, prefer), _sem_seq(node[2], env, prefer)
@@ -526,7 +553,7 @@ def pyeval(node, leafrows, bind, tags, prefer="l"):
     op = node[0]
     if op == "leaf":
         return [dict(r) for r in leafrows[node[1]]]
-    if op in ("mat", "xfer"):
+    if op in ("mat", "xfer", "tag"):
         return pyeval(node[1], leafrows, bind, tags, prefer)
     if op == "chain":
         return pyeval(node[1], leafrows, bind, tags, prefer) + pyeval(node[2], leafrows, bind, tags, prefer)
@@ -598,6 +625,8 @@ def fmt(node):
         return f"{fmt(node[1])}.mat"
     if op == "xfer":
         return f"{fmt(node[1])}.to[{node[2]}]"
+    if op == "tag":
+        return f"{fmt(node[1])}.tag"
     return repr(node)
 
 
@@ -662,7 +691,7 @@ def cols_of(node, leafcols):
     op = node[0]
     if op == "leaf":
         return frozenset(leafcols[node[1]])
-    if op in ("mat", "xfer"):
+    if op in ("mat", "xfer", "tag"):
         return cols_of(node[1], leafcols)
     if op == "chain":
         a, b = cols_of(node[1], leafcols), cols_of(node[2], leafcols)
